@@ -17,6 +17,10 @@ REGISTRY = {
     "C03": ("harness.checks.solverprops", "run"),
     "C04": ("harness.checks.solverprops", "run"),
     "C17": ("harness.checks.solverprops", "run"),
+    "C07": ("harness.checks.pen", "run"),
+    "C08": ("harness.checks.pen", "run"),
+    "C06": ("harness.checks.dat", "run"),
+    "C09": ("harness.checks.dat", "run"),
 }
 
 
